@@ -185,6 +185,10 @@ def c07_1(ctx, bps, b2):
             pz = show(strip_all(b2.operand_term(runs[0]["args"][2])))
             so = show(strip_all(b2.operand_term(runs[0]["args"][3])))
             ok2 = ok2 and "[1]" in pz and "[3]" in so
+    for nm, bb_, calls_ in (("parse_spends", bps, a1), ("run_block_generator2", b2, a2)):
+        U.loop_no_skip(ctx, R, bb_, "no-skipped-spend:" + nm,
+                       [bi for bi, n, t in bb_.calls() if n.startswith(CC + "conditions::process_single_spend")],
+                       "every element of the spend list reaches process_single_spend or aborts the run (no iteration is skipped)")
     ctx.ob(R, "roles:parse_spends", ok1, "parse_spends routes (parent, puzzle_hash, amount, conditions) = the four fields of parse_single_spend, in order")
     ctx.ob(R, "roles:native", ok2, "the native loop routes item0 as parent, hash(item1) as puzzle hash, item2 as amount, run(item1, item3) as conditions")
     psb = U.body(ctx, R, CC + "conditions::parse_single_spend")
